@@ -127,6 +127,7 @@ func init() {
 			"that each reached checker is semantically right for all values; completeness (no error) for valid trees.")
 		ruleValidateReach(c, r)
 		ruleValidatorSkip(c, r)
+		ruleUnionMember(c, r)
 		ruleLengthUnits(c, r)
 		ruleSignConv(c, r, c.anchored("C07", "ytypes/int_type.go", "ytypes/string_type.go", "ytypes/decimal_type.go", "ytypes/binary_type.go"), 2)
 	})
